@@ -7,6 +7,7 @@ CONSTANTS
   FailAt <- Fail11
   DevMode = FALSE
   MaxVer = 1
+  Scratch = TRUE
   Bug = "none"
 INIT Init
 NEXT Next
